@@ -10,11 +10,15 @@ exhaust the process"); the models carry them with the same constants and compari
 
 * `maxInlineDepth` = 10000 — inline containers of a paragraph (`w:ins`, `w:sdt`, `w:hyperlink`, …;
   `text:span`, `text:a`): `decodeContent` / `decodeInlineContentAt` are entered with `depth+1`
-  and begin with `if depth > maxInlineDepth { error }`. DOCX: `docx.Open` fails. ODT: the element
-  is dropped and the body walk ends at the end of the paragraph the decoder gave up in.
+  and begin with `if depth > maxInlineDepth { error }`. DOCX: `docx.Open` fails. ODT: `odt.Open`
+  fails, too (before the repair the element was dropped and the body walk ended, silently, at the
+  end of the paragraph the decoder gave up in: the `…_pinned_counterexample` theorems).
 * `maxSpaceRun` = 1024 — `<text:s text:c="N"/>`: `if count > maxSpaceRun { count = maxSpaceRun }`.
 * `maxTableGridCells` = 2^20 — `limitTableGrid`: spans are believed only if
-  `len(rows) <= maxTableGridCells / cols`; otherwise every cell is 1 x 1.
+  `len(rows) <= maxTableGridCells / cols`; otherwise every cell is 1 x 1. The same constant
+  bounds the columns an ODT table DECLARES (`ToModelTable`: believed only while rows x declared
+  columns ≤ 2^20) - `Props/C16RenderOdt.lean`: `odt_grid_declared_within` / `_beyond`,
+  `odt_model_grid_bounded`, `odt_model_grid_bounded_authored`.
 * `maxCellSpan` = 1024, `maxListLevel` = 8 — in `Props/C16.lean` (`docx_span_bounded`,
   `odt_span_bounded`, `odt_columns_bounded`, `list_level_bounded`).
 
@@ -154,105 +158,124 @@ theorem odt_inline_recursion_bounded (d : Nat) (loc : Str) (c : Ctx) (h : descen
       exact ⟨rfl, by omega⟩
   · cases h
 
-/-- **odt_gives_up**. A `text:p` / `text:h` of the body the decoder gives up in (its spans nest
-deeper than the bound: `residualList` answers `some r`) is not recorded; the walk reads the nodes
-`r` - what stands behind the refused start tag inside the paragraph - as ordinary body content,
-and then the loop has ended. -/
-theorem odt_gives_up (defs : List StyleDef) (tag : Str) (attrs : List (Str × Str)) (kids r : List Node) (w : Walk)
-    (hb : w.inBody = true) (hd : w.done = false) (ht : tag ≠ sOfficeText)
+/-- **odt_gives_up**. RESTATED (was: the element is dropped, the walk reads on behind the refused
+tag to the end of the paragraph and the loop ends there without an error). A `text:p` / `text:h`
+of the body the decoder gives up in (its spans nest deeper than the bound: `decodes` is false)
+is not recorded and `parseBodyElements` returns the depth error: nothing is added, the walk has
+failed. -/
+theorem odt_gives_up (defs : List StyleDef) (tag : Str) (attrs : List (Str × Str)) (kids : List Node) (w : Walk)
+    (hb : w.inBody = true) (hd : w.failed = false) (ht : tag ≠ sOfficeText)
     (hp : localName tag = sP ∨ localName tag = sH)
-    (hr : residualList (.inline 0) kids = some r) :
-    walkNode defs (.elem tag attrs kids) w = { walkList defs r w with done := true } := by
+    (hr : decodes (.inline 0) kids = false) :
+    walkNode defs (.elem tag attrs kids) w = { w with failed := true } := by
   have hne : (tag == sOfficeText) = false := by
     cases h : tag == sOfficeText
     · rfl
     · exact absurd (by simpa using h) ht
-  have hs : scanList defs (.inline 0) kids w = some (walkList defs r w) := by
-    rw [scan_residual, hr]; rfl
   cases hp with
   | inl h =>
-    simp only [walkNode, hne, hb, hd, h, Bool.false_eq_true, if_false, Bool.not_true, BEq.rfl, if_true]
-    rw [hs]
+    simp only [walkNode, hne, hb, hd, h, hr, Bool.false_eq_true, if_false, Bool.not_true, BEq.rfl, if_true]
   | inr h =>
     have h1 : (sH == sP) = false := by decide
-    simp only [walkNode, hne, hb, hd, h, h1, Bool.false_eq_true, if_false, Bool.not_true, BEq.rfl, if_true]
-    rw [hs]
+    simp only [walkNode, hne, hb, hd, h, h1, hr, Bool.false_eq_true, if_false, Bool.not_true, BEq.rfl, if_true]
 
 /-- **odt_gives_up_in_block**. The same for a `text:list` or a `table:table` of the body one of
 whose paragraphs (of an item, a nested list's item, a cell) nests its spans too deep: no item
-and no table is recorded (not even the items and rows before that paragraph), `r` is what
-stands behind the refused tag inside THAT paragraph, and the loop ends there - the rest of the
-list or table is not read either. -/
-theorem odt_gives_up_in_block (defs : List StyleDef) (tag : Str) (attrs : List (Str × Str)) (kids r : List Node) (w : Walk)
-    (hb : w.inBody = true) (hd : w.done = false) (ht : tag ≠ sOfficeText)
-    (hp : (localName tag = sList ∧ residualList .list kids = some r) ∨ (localName tag = sTable ∧ residualList .table kids = some r)) :
-    walkNode defs (.elem tag attrs kids) w = { walkList defs r w with done := true } := by
+and no table is recorded (not even the items and rows before that paragraph) and
+`parseBodyElements` returns the depth error. -/
+theorem odt_gives_up_in_block (defs : List StyleDef) (tag : Str) (attrs : List (Str × Str)) (kids : List Node) (w : Walk)
+    (hb : w.inBody = true) (hd : w.failed = false) (ht : tag ≠ sOfficeText)
+    (hp : (localName tag = sList ∧ decodes .list kids = false) ∨ (localName tag = sTable ∧ decodes .table kids = false)) :
+    walkNode defs (.elem tag attrs kids) w = { w with failed := true } := by
   have hne : (tag == sOfficeText) = false := by
     cases h : tag == sOfficeText
     · rfl
     · exact absurd (by simpa using h) ht
   cases hp with
   | inl h =>
-    have hs : scanList defs .list kids w = some (walkList defs r w) := by rw [scan_residual, h.2]; rfl
     have h1 : (sList == sP) = false := by decide
     have h2 : (sList == sH) = false := by decide
-    simp only [walkNode, hne, hb, hd, h.1, h1, h2, Bool.false_eq_true, if_false, Bool.not_true, BEq.rfl, if_true]
-    rw [hs]
+    simp only [walkNode, hne, hb, hd, h.1, h.2, h1, h2, Bool.false_eq_true, if_false, Bool.not_true, BEq.rfl, if_true]
   | inr h =>
-    have hs : scanList defs .table kids w = some (walkList defs r w) := by rw [scan_residual, h.2]; rfl
     have h1 : (sTable == sP) = false := by decide
     have h2 : (sTable == sH) = false := by decide
     have h3 : (sTable == sList) = false := by decide
-    simp only [walkNode, hne, hb, hd, h.1, h1, h2, h3, Bool.false_eq_true, if_false, Bool.not_true, BEq.rfl, if_true]
-    rw [hs]
+    simp only [walkNode, hne, hb, hd, h.1, h.2, h1, h2, h3, Bool.false_eq_true, if_false, Bool.not_true, BEq.rfl, if_true]
 
-/-- in a list or a table only the rest of the PARAGRAPH is read: what follows the paragraph in
-its item or cell, the later items, rows and cells are not part of the residue -/
-theorem odt_block_residual_is_the_paragraphs (ctx : Ctx) (hc : ctx.isInline = false) (n : Node) (rest : List Node) (r : List Node)
-    (h : residualNode ctx n = some r) : residualList ctx (n :: rest) = some r := by
-  simp only [residualList, h, hc, Bool.false_eq_true, if_false]
+/-- a list or a table is not decoded to its end as soon as ONE paragraph below it is not
+(`residualNode` answers `some` for the item, row or cell it sits in) -/
+theorem odt_block_gives_up (ctx : Ctx) (n : Node) (rest : List Node) (r : List Node)
+    (h : residualNode ctx n = some r) : decodes ctx (n :: rest) = false := by
+  simp [decodes, residualList, h]
 
-/-- **odt_truncated**. The body up to and behind a paragraph the decoder gives up in: the
-elements of what stands before it are recorded as always (`pre` decoded to its end), the
-paragraph itself is not, what stands behind the refused tag inside it is read, and NOTHING of
-what follows the paragraph (`post`: the rest of the document) is read - `odt.Open` reports no
-error. -/
-theorem odt_truncated (defs : List StyleDef) (tag : Str) (attrs : List (Str × Str)) (kids r pre post : List Node) (w : Walk)
-    (hb : w.inBody = true) (hd : w.done = false) (ht : tag ≠ sOfficeText)
+theorem decodesList_append (a b : List Node) : decodesList (a ++ b) = (decodesList a && decodesList b) := by
+  induction a with
+  | nil => simp [decodesList]
+  | cons n rest ih => simp [decodesList, ih, Bool.and_assoc]
+
+/-- **odt_open_within / odt_open_beyond / odt_open_iff**: what `odt.Open` leaves, for every
+content.xml whose `office:text` sits in `office:body` (nothing else named `office:text`). Within
+the bound - every body element decoded to its end - the reader holds the elements the children
+of `office:text` stand for; beyond it `Open` fails ("parsing content: inline content nested
+deeper than 10000 levels"), as `docx.Open` does (`docx_open_beyond`). -/
+theorem odt_open_within (docTag bodyTag : Str) (da ba ta : List (Str × Str)) (pre kids post : List Node) (styles : Option Node)
+    (hdoc : docTag ≠ sOfficeText) (hbody : bodyTag ≠ sOfficeText)
+    (hpre : noTextList pre = true) (hpost : noTextList post = true) (hk : noTextList kids = true)
+    (hdec : decodesList kids = true) :
+    let content : Node := .elem docTag da (pre ++ [.elem bodyTag ba [.elem sOfficeText ta kids]] ++ post)
+    openElements content styles = some (elements content styles)
+    ∧ elements content styles = elemsOfList (allStyles content styles) kids := by
+  intro content
+  have hw := C16.odt_body_walk_within docTag bodyTag da ba ta pre kids post styles hdoc hbody hpre hpost hk hdec
+  refine ⟨?_, C16.odt_elements_interleave docTag bodyTag da ba ta pre kids post styles hdoc hbody hpre hpost hk hdec⟩
+  unfold openElements
+  rw [hw]
+  rfl
+
+theorem odt_open_beyond (docTag bodyTag : Str) (da ba ta : List (Str × Str)) (pre kids post : List Node) (styles : Option Node)
+    (hdoc : docTag ≠ sOfficeText) (hbody : bodyTag ≠ sOfficeText)
+    (hpre : noTextList pre = true) (hk : noTextList kids = true)
+    (hdec : decodesList kids = false) :
+    openElements (.elem docTag da (pre ++ [.elem bodyTag ba [.elem sOfficeText ta kids]] ++ post)) styles = none := by
+  unfold openElements
+  rw [C16.odt_elements_refused docTag bodyTag da ba ta pre kids post styles hdoc hbody hpre hk hdec]
+  rfl
+
+theorem odt_open_iff (docTag bodyTag : Str) (da ba ta : List (Str × Str)) (pre kids post : List Node) (styles : Option Node)
+    (hdoc : docTag ≠ sOfficeText) (hbody : bodyTag ≠ sOfficeText)
+    (hpre : noTextList pre = true) (hpost : noTextList post = true) (hk : noTextList kids = true) :
+    (openElements (.elem docTag da (pre ++ [.elem bodyTag ba [.elem sOfficeText ta kids]] ++ post)) styles).isSome = decodesList kids := by
+  cases hdec : decodesList kids with
+  | true => rw [(odt_open_within docTag bodyTag da ba ta pre kids post styles hdoc hbody hpre hpost hk hdec).1]; rfl
+  | false => rw [odt_open_beyond docTag bodyTag da ba ta pre kids post styles hdoc hbody hpre hk hdec]; rfl
+
+/-- **odt_open_beyond_paragraph** (the counterpart of `docx_open_beyond`). ONE `text:p` / `text:h`
+among the children of `office:text` whose spans nest deeper than 10000 makes `Open` fail -
+whatever stands before it (`b1`, which may itself hold anything) and behind it (`b2`). -/
+theorem odt_open_beyond_paragraph (docTag bodyTag : Str) (da ba ta : List (Str × Str)) (pre post b1 b2 : List Node) (styles : Option Node)
+    (tag : Str) (attrs : List (Str × Str)) (kids : List Node)
+    (hdoc : docTag ≠ sOfficeText) (hbody : bodyTag ≠ sOfficeText)
+    (hpre : noTextList pre = true) (hk : noTextList (b1 ++ [.elem tag attrs kids] ++ b2) = true)
     (hp : localName tag = sP ∨ localName tag = sH)
-    (hr : residualList (.inline 0) kids = some r)
-    (hpre : noTextList pre = true) (hdec : decodesList pre = true) :
-    walkList defs (pre ++ [.elem tag attrs kids] ++ post) w =
-      { walkList defs r { w with acc := w.acc ++ elemsOfList defs pre } with done := true } := by
-  rw [walkList_append, walkList_append, walk_inside_list defs pre w hb hd hpre hdec]
-  simp only [walkList]
-  rw [odt_gives_up defs tag attrs kids r { w with acc := w.acc ++ elemsOfList defs pre } hb hd ht hp hr]
-  exact walk_done_list defs post _ rfl
-
-/-- a nest of spans that holds character data only adds nothing to the body -/
-theorem walk_spanN_text (defs : List StyleDef) (stag : Str) (hne : stag ≠ sOfficeText)
-    (hs : localName stag = sSpan) (t : Str) (w : Walk) : ∀ k, walkList defs (spanN stag k [.text t]) w = w := by
-  have hq : (stag == sOfficeText) = false := by
-    cases h : stag == sOfficeText
-    · rfl
-    · exact absurd (by simpa using h) hne
-  intro k
-  induction k with
-  | zero => simp [spanN, walkList, walkNode]
-  | succ k ih =>
-    have h1 : (sSpan == sP) = false := by decide
-    have h2 : (sSpan == sH) = false := by decide
-    have h3 : (sSpan == sList) = false := by decide
-    have h4 : (sSpan == sTable) = false := by decide
-    simp only [spanN, walkList, walkNode, hq, hs, h1, h2, h3, h4, Bool.false_eq_true, if_false]
-    by_cases hdn : w.done = true
-    · simp [hdn]
-    · have hdn' : w.done = false := by simpa using hdn
-      simp only [hdn', Bool.false_eq_true, if_false]
-      by_cases hbd : w.inBody = true
-      · simp only [hbd, Bool.not_true, Bool.false_eq_true, if_false]; exact ih
-      · have : w.inBody = false := by simpa using hbd
-        simp only [this, Bool.not_false, if_true]; exact ih
+    (h : spanNestList kids > maxInlineDepth) :
+    openElements (.elem docTag da (pre ++ [.elem bodyTag ba [.elem sOfficeText ta (b1 ++ [.elem tag attrs kids] ++ b2)]] ++ post)) styles = none := by
+  apply odt_open_beyond docTag bodyTag da ba ta pre _ post styles hdoc hbody hpre hk
+  have hpd : paraDecodes (.elem tag attrs kids) = false := by
+    cases hx : paraDecodes (.elem tag attrs kids) with
+    | false => rfl
+    | true =>
+      have := (odt_decodes_iff_depth _).mp hx
+      simp only [Node.kids] at this
+      omega
+  have hn : decodesNode (.elem tag attrs kids) = false := by
+    have hpd' : decodes (.inline 0) kids = false := hpd
+    cases hp with
+    | inl hp => simp only [decodesNode, hp, BEq.rfl, if_true, hpd']
+    | inr hp =>
+      have h1 : (sH == sP) = false := by decide
+      simp only [decodesNode, hp, h1, BEq.rfl, if_true, Bool.false_eq_true, if_false, hpd']
+  rw [decodesList_append, decodesList_append]
+  simp [decodesList, hn]
 
 theorem residual_spanN (stag : Str) (hs : (localName stag == sSpan || localName stag == sA) = true) (inner : List Node) :
     ∀ k d, d ≤ maxInlineDepth → d + k > maxInlineDepth →
@@ -272,20 +295,166 @@ theorem residual_spanN (stag : Str) (hs : (localName stag == sSpan || localName 
       simp only [Ctx.isInline, if_true, List.append_nil]
       exact ⟨j, rfl⟩
 
-/-- **odt_deep_paragraph_dropped**. A body paragraph that holds more than 10000 nested
-`text:span` around some text contributes nothing, and whatever follows it in the body is not
-read: the walk over `[that paragraph] ++ post` leaves the element list as it was. -/
-theorem odt_deep_paragraph_dropped (defs : List StyleDef) (k : Nat) (hk : k > maxInlineDepth) (t : Str) (post : List Node) (w : Walk)
-    (hb : w.inBody = true) (hd : w.done = false) :
-    (walkList defs ([.elem [116, 101, 120, 116, 58, 112] [] (spanN [116, 101, 120, 116, 58, 115, 112, 97, 110] k [.text t])] ++ post) w).acc
-      = w.acc := by
-  have hs : (localName [116, 101, 120, 116, 58, 115, 112, 97, 110] == sSpan || localName [116, 101, 120, 116, 58, 115, 112, 97, 110] == sA) = true := by decide
+theorem noText_spanN (stag : Str) (hne : stag ≠ sOfficeText) (inner : List Node) (hi : noTextList inner = true) :
+    ∀ k, noTextList (spanN stag k inner) = true := by
+  intro k
+  induction k with
+  | zero => exact hi
+  | succ k ih => simp [spanN, noTextList, noTextNode, hne, ih]
+
+/-! ### the witness: a paragraph, a paragraph of `k` nested spans, a paragraph -/
+
+def tP : Str := [116, 101, 120, 116, 58, 112]
+def tSpan : Str := [116, 101, 120, 116, 58, 115, 112, 97, 110]
+
+/-- `<d><b><office:text><text:p>A</text:p><text:p><text:span>…B…</text:span></text:p><text:p>C</text:p></office:text></b></d>` -/
+def deepDoc (k : Nat) : Node :=
+  .elem [100] [] [.elem [98] [] [.elem sOfficeText []
+    [.elem tP [] [.text [65]], .elem tP [] (spanN tSpan k [.text [66]]), .elem tP [] [.text [67]]]]]
+
+/-- **odt_deep_paragraph_refused**. A body paragraph that holds more than 10000 nested
+`text:span` around some text makes `odt.Open` fail. -/
+theorem odt_deep_paragraph_refused (k : Nat) (hk : k > maxInlineDepth) (styles : Option Node) :
+    openElements (deepDoc k) styles = none := by
+  have hs : (localName tSpan == sSpan || localName tSpan == sA) = true := by decide
+  have := odt_open_beyond_paragraph [100] [98] [] [] [] [] [] [.elem tP [] [.text [65]]] [.elem tP [] [.text [67]]] styles
+    tP [] (spanN tSpan k [.text [66]]) (by decide) (by decide) rfl
+    (by
+      have h1 := noText_spanN tSpan (by decide) [.text [66]] rfl k
+      have h2 : (tP != sOfficeText) = true := by decide
+      simp [noTextList, noTextNode, h1, h2])
+    (Or.inl (by decide))
+    (by rw [spanNest_spanN _ hs]; simp only [spanNestList, spanNestNode]; omega)
+  exact this
+
+/-- … and one level less is read in full: the three paragraphs, the middle one with the text
+inside the spans -/
+theorem odt_deep_paragraph_within (k : Nat) (hk : k ≤ maxInlineDepth) :
+    openElements (deepDoc k) none
+      = some [.para ⟨[65], none, none⟩, .para ⟨[66], none, none⟩, .para ⟨[67], none, none⟩] := by
+  have hs : (localName tSpan == sSpan || localName tSpan == sA) = true := by decide
+  have hn : noTextList [Node.elem tP [] [.text [65]], .elem tP [] (spanN tSpan k [.text [66]]), .elem tP [] [.text [67]]] = true := by
+    have h1 := noText_spanN tSpan (by decide) [.text [66]] rfl k
+    have h2 : (tP != sOfficeText) = true := by decide
+    simp [noTextList, noTextNode, h1, h2]
+  have hmid : decodes (.inline 0) (spanN tSpan k [.text [66]]) = true := by
+    have := (odt_decodes_iff_depth (.elem tP [] (spanN tSpan k [.text [66]]))).mpr
+      (by simp only [Node.kids]; rw [spanNest_spanN _ hs]; simp only [spanNestList, spanNestNode]; omega)
+    exact this
+  have hd : decodesList [Node.elem tP [] [.text [65]], .elem tP [] (spanN tSpan k [.text [66]]), .elem tP [] [.text [67]]] = true := by
+    have hp : (localName tP == sP) = true := by decide
+    have h1 : decodes (.inline 0) [.text [65]] = true := by decide
+    have h3 : decodes (.inline 0) [.text [67]] = true := by decide
+    simp only [decodesList, decodesNode, hp, if_true, h1, hmid, h3, Bool.and_self]
+  have h := odt_open_within [100] [98] [] [] [] [] _ [] none (by decide) (by decide) rfl rfl hn hd
+  simp only at h
+  show openElements (.elem [100] [] ([] ++ [.elem [98] [] [.elem sOfficeText [] _]] ++ [])) none = _
+  rw [h.1, h.2]
+  have hp : (localName tP == sP) = true := by decide
+  simp only [elemsOfList, elemsOfNode, hp, if_true, processParagraph, paraText, Node.kids, List.append_nil, List.cons_append, List.nil_append]
+  rw [inline_spanN _ hs]
+  rfl
+
+/-! ### before the repair: the document was cut short without an error -/
+
+/-- what `parseBodyElements` did before the repair with a `text:p` / `text:h` the decoder gave up
+in (`residualList` answers `some r`): the element was not recorded, the walk read the nodes `r` -
+what stands behind the refused start tag inside the paragraph - as ordinary body content, and
+then the loop had ended (`done`) -/
+theorem odt_gives_up_old (defs : List StyleDef) (tag : Str) (attrs : List (Str × Str)) (kids r : List Node) (w : WalkOld)
+    (hb : w.inBody = true) (hd : w.done = false) (ht : tag ≠ sOfficeText)
+    (hp : localName tag = sP ∨ localName tag = sH)
+    (hr : residualList (.inline 0) kids = some r) :
+    walkNodeOld defs (.elem tag attrs kids) w = { walkListOld defs r w with done := true } := by
+  have hne : (tag == sOfficeText) = false := by
+    cases h : tag == sOfficeText
+    · rfl
+    · exact absurd (by simpa using h) ht
+  have hs : scanListOld defs (.inline 0) kids w = some (walkListOld defs r w) := by
+    rw [scanOld_residual, hr]; rfl
+  cases hp with
+  | inl h =>
+    simp only [walkNodeOld, hne, hb, hd, h, Bool.false_eq_true, if_false, Bool.not_true, BEq.rfl, if_true]
+    rw [hs]
+  | inr h =>
+    have h1 : (sH == sP) = false := by decide
+    simp only [walkNodeOld, hne, hb, hd, h, h1, Bool.false_eq_true, if_false, Bool.not_true, BEq.rfl, if_true]
+    rw [hs]
+
+/-- in a list or a table only the rest of the PARAGRAPH was read: what follows the paragraph in
+its item or cell, the later items, rows and cells are not part of the residue -/
+theorem odt_block_residual_is_the_paragraphs (ctx : Ctx) (hc : ctx.isInline = false) (n : Node) (rest : List Node) (r : List Node)
+    (h : residualNode ctx n = some r) : residualList ctx (n :: rest) = some r := by
+  simp only [residualList, h, hc, Bool.false_eq_true, if_false]
+
+/-- a nest of spans that holds character data only added nothing to the body -/
+theorem walkOld_spanN_text (defs : List StyleDef) (stag : Str) (hne : stag ≠ sOfficeText)
+    (hs : localName stag = sSpan) (t : Str) (w : WalkOld) : ∀ k, walkListOld defs (spanN stag k [.text t]) w = w := by
+  have hq : (stag == sOfficeText) = false := by
+    cases h : stag == sOfficeText
+    · rfl
+    · exact absurd (by simpa using h) hne
+  intro k
+  induction k with
+  | zero => simp [spanN, walkListOld, walkNodeOld]
+  | succ k ih =>
+    have h1 : (sSpan == sP) = false := by decide
+    have h2 : (sSpan == sH) = false := by decide
+    have h3 : (sSpan == sList) = false := by decide
+    have h4 : (sSpan == sTable) = false := by decide
+    simp only [spanN, walkListOld, walkNodeOld, hq, hs, h1, h2, h3, h4, Bool.false_eq_true, if_false]
+    by_cases hdn : w.done = true
+    · simp [hdn]
+    · have hdn' : w.done = false := by simpa using hdn
+      simp only [hdn', Bool.false_eq_true, if_false]
+      by_cases hbd : w.inBody = true
+      · simp only [hbd, Bool.not_true, Bool.false_eq_true, if_false]; exact ih
+      · have : w.inBody = false := by simpa using hbd
+        simp only [this, Bool.not_false, if_true]; exact ih
+
+/-- **odt_deep_paragraph_dropped_pinned_counterexample** (the walk before the repair). A body
+paragraph that holds more than 10000 nested `text:span` around some text contributed nothing,
+and whatever followed it in the body was not read: the old walk over `[that paragraph] ++ post`
+left the element list as it was - and ended, with no error to report. -/
+theorem odt_deep_paragraph_dropped_pinned_counterexample (defs : List StyleDef) (k : Nat) (hk : k > maxInlineDepth) (t : Str)
+    (post : List Node) (w : WalkOld) (hb : w.inBody = true) (hd : w.done = false) :
+    walkListOld defs ([.elem tP [] (spanN tSpan k [.text t])] ++ post) w = { w with done := true } := by
+  have hs : (localName tSpan == sSpan || localName tSpan == sA) = true := by decide
   obtain ⟨j, hr⟩ := residual_spanN _ hs [.text t] k 0 (Nat.zero_le _) (by omega)
-  have := odt_truncated defs [116, 101, 120, 116, 58, 112] [] _ _ [] post w hb hd (by decide) (Or.inl (by decide)) hr rfl rfl
-  simp only [List.nil_append] at this
-  rw [this]
-  simp only [elemsOfList, List.append_nil]
-  rw [walk_spanN_text defs _ (by decide) (by decide)]
+  simp only [List.cons_append, List.nil_append, walkListOld]
+  rw [odt_gives_up_old defs tP [] _ _ w hb hd (by decide) (Or.inl (by decide)) hr]
+  rw [walkOld_spanN_text defs _ (by decide) (by decide)]
+  exact walkOld_done_list defs post _ rfl
+
+/-- **odt_silent_truncation_pinned_counterexample**. The document `A`, a paragraph of 10001 (or
+more) nested spans, `C`: before the repair the reader held the single paragraph `A` and
+`odt.Open` reported no error (`elementsOld` is total: there was no way to fail here); the
+repaired `Open` refuses the document (`odt_deep_paragraph_refused`), as `docx.Open` refuses its
+DOCX counterpart. -/
+theorem odt_silent_truncation_pinned_counterexample (k : Nat) (hk : k > maxInlineDepth) :
+    elementsOld (deepDoc k) none = [.para ⟨[65], none, none⟩] ∧ openElements (deepDoc k) none = none := by
+  refine ⟨?_, odt_deep_paragraph_refused k hk none⟩
+  unfold elementsOld deepDoc
+  generalize allStyles _ none = defs
+  have h1 : ([100] == sOfficeText) = false := by decide
+  have h2 : ([98] == sOfficeText) = false := by decide
+  have hA : walkNodeOld defs (.elem tP [] [.text [65]]) { inBody := true, acc := [] }
+      = { inBody := true, acc := [.para ⟨[65], none, none⟩] } := by
+    have h3 : (tP == sOfficeText) = false := by decide
+    have h4 : (localName tP == sP) = true := by decide
+    have hs : scanListOld defs (.inline 0) [.text [65]] { inBody := true, acc := [] } = none := rfl
+    simp only [walkNodeOld, h3, h4, Bool.false_eq_true, if_false, Bool.not_true, if_true, hs, List.nil_append]
+    rfl
+  have hdrop := odt_deep_paragraph_dropped_pinned_counterexample defs k hk [66] [.elem tP [] [.text [67]]]
+    { inBody := true, acc := [.para ⟨[65], none, none⟩] } rfl rfl
+  have hbody : ∀ kids : List Node, walkNodeOld defs (.elem [100] [] [.elem [98] [] [.elem sOfficeText [] kids]]) { inBody := false, acc := [] }
+      = { walkListOld defs kids { inBody := true, acc := [] } with inBody := false } := by
+    intro kids
+    simp only [walkNodeOld, walkListOld, h1, h2, Bool.false_eq_true, if_false, Bool.not_false, if_true, BEq.rfl]
+  rw [hbody]
+  rw [walkListOld, hA]
+  simp only [List.cons_append, List.nil_append] at hdrop
+  rw [hdrop]
 
 /-- the edge: a paragraph of 10000 nested spans is decoded (and reads as the text inside),
 10001 are not -/
